@@ -137,8 +137,8 @@ def hessian_log_determinant(function, x, *args, jit=True):
     -------
     array-like, array-like
         The sign of the determinant at each point in `x` and the logarithm of its absolute value.
-        `signs.shape == log_determinants.shape == x.shape[0]`; if `function` returns k > 1 values per
-        point the shape is `(x.shape[0], k)`, one pair per Hessian block.
+        `signs.shape == log_determinants.shape == x.shape[0]`; if `function` returns k values per
+        point in a 2-D array the shape is `(x.shape[0], k)`, one pair per Hessian block.
     """
     x = atleast_2d(x)
 
@@ -147,11 +147,11 @@ def hessian_log_determinant(function, x, *args, jit=True):
 
     def get_log_det(x, *args):
         # one (d, d) block per output column of `function` (a single block for scalar outputs)
-        hess = jax.jacfwd(jax.jacrev(function))(x[None, :], *args).reshape(
-            (-1,) + hess_shape
-        )
-        sign, log_det = jax.numpy.linalg.slogdet(hess)
-        if hess.shape[0] == 1:
+        hess = jax.jacfwd(jax.jacrev(function))(x[None, :], *args)
+        # a 2-D output of `function` keeps its column axis, also if it has a single column
+        has_columns = len(hess.shape) > 5
+        sign, log_det = jax.numpy.linalg.slogdet(hess.reshape((-1,) + hess_shape))
+        if not has_columns:
             return sign[0], log_det[0]
         return sign, log_det
 
